@@ -15,16 +15,7 @@ def check(run):
     add_rules(run, ['ACC.pair', 'ACC.guard', 'ACC.order', 'ACC.exit', 'GATE.form', 'GATE.dom'])
     for r, t in idxkernel.RULES.items():
         run.rule(r, t)
-    run.rule('EXT.expiry', 'the cached extreme is re-established by a full rescan of '
-             'start..=end exactly when its index has left the window (idx < start), before it '
-             'is used; otherwise the incoming element is compared with the cache')
-    run.rule('EXT.tie', 'rescan and incoming comparison both replace the cache on Less | Equal '
-             '(the most recent of equal extremes wins), through the null-last comparator')
-    run.rule('EXT.cmp', 'minimum kernels compare with sort_cmp, maximum kernels with '
-             'sort_cmp_rev; no other comparison touches the cache')
-    run.rule('EXT.result', 'arg-extrema report idx - start.unwrap_or(0) + 1; min/max report the '
-             'cached value')
-    run.rule('SIB.mirror', 'the maximum kernel is the minimum kernel with sort_cmp <-> sort_cmp_rev')
+    extrema_rules(run)
     run.rule('RANK.count', 'the rank loop runs over start.unwrap_or(0)..end, counts strictly '
              'smaller non-null elements into rank and equal ones into n_repeat')
     run.rule('RANK.formula', 'average rank = rank + (n_repeat-1)/2, descending = (n+1) - that, '
@@ -55,23 +46,7 @@ def check(run):
             acc.check_gate(run, m)
             if k.idx:
                 idxkernel.check_idx_kernel(run, m)
-        for name in ('ts_vargmin_to', 'ts_vmin_to', 'ts_vargmax_to', 'ts_vmax_to'):
-            extreme_kernel(run, models[name], rev=('max' in name), arg=('arg' in name))
-        for a, b in (('ts_vmin_to', 'ts_vmax_to'), ('ts_vargmin_to', 'ts_vargmax_to')):
-            sa, sb = _mirror_sig(models[a]), _mirror_sig(models[b])
-            diff = None
-            if sa is None or sb is None:
-                diff = 'cache variables not recognised'
-            else:
-                for part in ('body', 'rescan'):
-                    if sa[part] != sb[part]:
-                        only_a = sorted(map(str, sa[part] - sb[part]))[:1]
-                        only_b = sorted(map(str, sb[part] - sa[part]))[:1]
-                        diff = '%s tables differ: %s  vs  %s' % (part, only_a, only_b)
-                        break
-            run.ob('SIB.mirror', ks[a].fn, '%s ~ %s' % (a, b), diff is None, ks[a].fn.loc(),
-                   'decision tables agree after sort_cmp_rev -> sort_cmp (%d + %d rows)' %
-                   (len(sa['body']), len(sa['rescan'])) if diff is None else diff)
+        extrema(run, ks, models)
         rank_kernel(run, models['ts_vrank_to'])
         zscore(run, models['ts_vzscore_to'])
         minmax(run, models['ts_vminmaxnorm_to'])
@@ -91,6 +66,43 @@ def check(run):
         ASSUME, TRUSTED,
         'instances = kernels x (expiry, tie, comparator, result, mirror, formula) sites')
 
+
+def extrema_rules(run):
+    run.rule('EXT.expiry', 'the cached extreme is re-established by a full rescan of '
+             'start..=end exactly when its index has left the window (idx < start), before it '
+             'is used; otherwise the incoming element is compared with the cache')
+    run.rule('EXT.tie', 'rescan and incoming comparison both replace the cache on Less | Equal '
+             '(the most recent of equal extremes wins), through the null-last comparator')
+    run.rule('EXT.cmp', 'minimum kernels compare with sort_cmp, maximum kernels with '
+             'sort_cmp_rev; no other comparison touches the cache')
+    run.rule('EXT.result', 'arg-extrema report idx - start.unwrap_or(0) + 1; min/max report the '
+             'cached value')
+    run.rule('SIB.mirror', 'the maximum kernel is the minimum kernel with sort_cmp <-> sort_cmp_rev')
+
+
+def extrema(run, ks, models=None):
+    """the four rolling extreme kernels: expiry / tie / comparator / result sites and the min ~ max
+    mirror (also run by C08: a null in the window never displaces a valid extreme, because every
+    comparison that touches the cache is the null-last comparator in the kernel's own direction)"""
+    if models is None:
+        models = {n: KernelModel(k) for n, k in ks.items()}
+    for name in ('ts_vargmin_to', 'ts_vmin_to', 'ts_vargmax_to', 'ts_vmax_to'):
+        extreme_kernel(run, models[name], rev=('max' in name), arg=('arg' in name))
+    for a, b in (('ts_vmin_to', 'ts_vmax_to'), ('ts_vargmin_to', 'ts_vargmax_to')):
+        sa, sb = _mirror_sig(models[a]), _mirror_sig(models[b])
+        diff = None
+        if sa is None or sb is None:
+            diff = 'cache variables not recognised'
+        else:
+            for part in ('body', 'rescan'):
+                if sa[part] != sb[part]:
+                    only_a = sorted(map(str, sa[part] - sb[part]))[:1]
+                    only_b = sorted(map(str, sb[part] - sa[part]))[:1]
+                    diff = '%s tables differ: %s  vs  %s' % (part, only_a, only_b)
+                    break
+        run.ob('SIB.mirror', ks[a].fn, '%s ~ %s' % (a, b), diff is None, ks[a].fn.loc(),
+               'decision tables agree after sort_cmp_rev -> sort_cmp (%d + %d rows)' %
+               (len(sa['body']), len(sa['rescan'])) if diff is None else diff)
 
 def _mirror_sig(m):
     """Decision tables of an extreme kernel (closure body, rescan loop body) over role names,
